@@ -972,8 +972,17 @@ func (p *Parser) parseEachStmt() *ast.EachStmt {
 func (p *Parser) parseBlockStmt() *ast.BlockStmt {
 	stmt := &ast.BlockStmt{Token: p.curToken}
 
-	for !p.curTokenIs(token.END) {
+	for !p.curTokenIs(token.END) && !p.curTokenIs(token.EOF) {
 		block := p.parseStatement()
+
+		if p.curTokenIs(token.ILLEGAL) {
+			p.newError(
+				p.curToken.ErrorLine(),
+				fail.ErrIllegalToken,
+				p.curToken.Literal,
+			)
+			return stmt
+		}
 
 		if block != nil {
 			stmt.Statements = append(stmt.Statements, block)
@@ -984,6 +993,16 @@ func (p *Parser) parseBlockStmt() *ast.BlockStmt {
 		}
 
 		p.nextToken() // skip statement
+	}
+
+	// the block was not closed before the end of the file
+	if p.curTokenIs(token.EOF) {
+		p.newError(
+			p.curToken.ErrorLine(),
+			fail.ErrWrongNextToken,
+			token.String(token.END),
+			token.String(token.EOF),
+		)
 	}
 
 	return stmt
